@@ -402,6 +402,11 @@ func runC10(c *Ctx) {
 		if r.Chance(1, 50) {
 			n = 200 + r.Intn(4000)
 		}
+		if i%2000 == 7 {
+			// beyond the sizes of everyday payloads: around 4 KiB, 64 KiB and 128 KiB (chunked scanners, 16-bit offsets)
+			n = []int{4093, 4096, 8191, 65533, 65536, 65539, 131072, 100000}[(i/2000)%8] + r.Intn(5)
+			w.Count("very_long_strings", 1)
+		}
 		b := make([]byte, n)
 		for j := range b {
 			if r.Chance(1, 12) {
@@ -421,6 +426,24 @@ func runC10(c *Ctx) {
 		c10check(w, b, false)
 		w.Count("random_strings", 1)
 	})
+	// a single marker (or line feed, or truncated marker) in an otherwise plain payload, placed around every multiple of a
+	// power of two: scanners that skip whole blocks, word-at-a-time loops, chunked copies
+	var aligned [][]byte
+	for _, blk := range []int{8, 16, 32, 64, 128, 256, 512, 1024, 2048, 4096, 8192, 16384, 32768, 65536} {
+		for _, k := range []int{1, 2, 3, 16} {
+			if blk*k > 140000 {
+				continue
+			}
+			for off := -4; off <= 1; off++ {
+				for _, mk := range []string{startM, endM, "\n", "\xe2\x80", redactedM, "\xe2"} {
+					b := append(bytes.Repeat([]byte("a"), blk*k+off), mk...)
+					aligned = append(aligned, append(append([]byte(nil), b...), "TAIL"...), append(b, ("T" + endM + "x" + startM)...))
+				}
+			}
+		}
+	}
+	c.AddCount("aligned_marker_strings", int64(len(aligned)))
+	c.ParallelFor(int64(len(aligned)), func(w *Worker, i int64) { c10check(w, aligned[i], false) })
 	c.res.Exhaustive = true
 	c.res.Bound = "every byte string of at most " + itoa(maxLen) + " bytes over the 9-byte alphabet, every start offset, both line-split settings"
 }
